@@ -16,6 +16,7 @@ type c10Rec struct {
 	text   interface{}
 	seq    interface{}
 	meta   interface{}
+	nfields int
 }
 
 // c10Bridge keeps the raw body of the last exchange so that the wire's id: lines can be inspected.
@@ -50,10 +51,15 @@ func H_C10_in_call_notifications() {
 	texts := make([]string, k)
 	metas := make([]string, k)
 	hasMeta := make([]bool, k)
+	shapes := make([]int, k)
 	for i := 0; i < k; i++ {
 		methods[i] = []string{"n/a", "n/b"}[vChoice("method", 2)]
-		texts[i] = vString("text", 6)
-		hasMeta[i] = vBool("hasMeta")
+		// shape of the params: 0 fields only, 1 fields and _meta, 2 _meta only, 3 empty
+		shapes[i] = vChoice("shape", 4)
+		if shapes[i] <= 1 {
+			texts[i] = vString("text", 6)
+		}
+		hasMeta[i] = shapes[i] == 1 || shapes[i] == 2
 		if hasMeta[i] {
 			metas[i] = vString("tok", 6)
 		}
@@ -65,7 +71,11 @@ func H_C10_in_call_notifications() {
 			return nil, context.Canceled
 		}
 		for i := 0; i < k; i++ {
-			params := map[string]interface{}{"seq": float64(i), "text": texts[i]}
+			params := map[string]interface{}{}
+			if shapes[i] <= 1 {
+				params["seq"] = float64(i)
+				params["text"] = texts[i]
+			}
 			if hasMeta[i] {
 				params["_meta"] = map[string]interface{}{"tok": metas[i]}
 			}
@@ -84,7 +94,7 @@ func H_C10_in_call_notifications() {
 		if n.Params.Meta != nil {
 			meta = n.Params.Meta["tok"]
 		}
-		got = append(got, c10Rec{method: n.Method, text: n.Params.AdditionalFields["text"], seq: n.Params.AdditionalFields["seq"], meta: meta})
+		got = append(got, c10Rec{method: n.Method, text: n.Params.AdditionalFields["text"], seq: n.Params.AdditionalFields["seq"], meta: meta, nfields: len(n.Params.AdditionalFields)})
 		return nil
 	}
 	if regA {
@@ -111,9 +121,13 @@ func H_C10_in_call_notifications() {
 	vAssert("each-exactly-once-no-extras", len(got) == len(want))
 	if len(got) == len(want) {
 		for j, i := range want {
-			vAssert("in-emission-order", got[j].seq == float64(i))
 			vAssert("method-intact", got[j].method == methods[i])
-			vAssert("params-intact", got[j].text == texts[i])
+			if shapes[i] <= 1 {
+				vAssert("in-emission-order", got[j].seq == float64(i))
+				vAssert("params-intact", vAnd(got[j].text == texts[i], got[j].nfields == 2))
+			} else {
+				vAssert("no-params-invented", got[j].nfields == 0)
+			}
 			if hasMeta[i] {
 				vAssert("meta-intact", got[j].meta == metas[i])
 			} else {
